@@ -127,6 +127,10 @@ def compute_features_2d(sigs, fs, f_range, compute_features_kwargs=None, axis=0,
             dfs_features = list(progress_bar(mapping, progress, len(sigs)))
 
     elif axis is None:
+        # No iterable to track here, the progress specifier is still checked
+        if progress is not None and progress not in ['tqdm', 'tqdm.notebook']:
+            raise ValueError("Progress bar option not understood.")
+
         # Compute features after flattening the 2d array (i.e. calculated across a 1d signal)
         sig_flat = sigs.flatten()
 
